@@ -1,5 +1,6 @@
 import Duckling.Model.Compile
 import Duckling.Lemmas.RBasic
+import Duckling.Lemmas.Prints
 /-
   C18 — PRINT is a side channel: ordered, located, invisible in the output.
 
@@ -13,9 +14,12 @@ import Duckling.Lemmas.RBasic
   * `C18_error_carries_log` every located compile error raised by the interpreter carries the print log as it stood when it was raised
                              (prints executed before the failure are available);
   * `C18_startenv_keeps_prints`  STARTENV discards the output lines of the file but not its prints.
-  That the log only ever grows along an execution (append-only through every construct), and the
-  whole-program statements (insert PRINT anywhere ⇒ same output), are validated by the correspondence
-  and the reference interpreter, not proved — `partial` in that respect.
+  * `C18_log_only_grows`    (invariant over the whole interpreter, any program, depth and state) the log a run ends with
+                             extends the log it started with — nothing is ever lost, reordered or rewritten — and the log
+                             carried by a located error extends it too: the prints executed before a failure are still there;
+  * `C18_compile_prints_before_failure`  for a whole compilation that fails with a located error the error carries a log.
+  The whole-program statements (insert PRINT anywhere ⇒ same output; each executed PRINT exactly once) are
+  validated by the correspondence and the reference interpreter, not proved — `partial` in that respect.
 -/
 namespace Duckling.Props.C18
 open Duckling
@@ -65,5 +69,22 @@ theorem C18_startenv_keeps_prints (name : Str) (st : St) (r : Out) (rc : RC) (h 
     cases h
     refine ⟨?_, fun hn => by simp [hn] at he⟩
     simp only [leave, startBaseWarn]; split <;> simp [addWarn] <;> split <;> rfl
+
+theorem C18_log_only_grows (d : Nat) (nodes : List Node) (ctx : Ctx) (st : St) :
+    (∀ r, exec d nodes ctx st = .ok r → st.prints <+: r.st.prints) ∧
+    (∀ e ps, exec d nodes ctx st = .err e → e.prints = some ps → st.prints <+: ps) := by
+  have h := exec_prints_grow d nodes ctx st
+  exact ⟨fun r hr => h.ok r r.st.prints hr rfl, fun e ps he hp => h.err e ps he hp⟩
+
+theorem C18_compile_prints_before_failure (o : Opts) (fs : FS) (file : Option Path) (src : Source) (nodes : List Node) (e : ErrInfo)
+    (hp : prepare src = .ok nodes) (h : compile o fs file src = .err e) (ht : e.trace.isSome) :
+    ∃ d ctx st, exec d nodes ctx st = .err e ∧ st.prints = [] := by
+  unfold compile at h
+  simp only [hp] at h
+  split at h
+  · cases h
+  · rename_i e' he; cases h; exact ⟨_, _, _, he, rfl⟩
+  · cases h
+  · cases h
 
 end Duckling.Props.C18
